@@ -241,3 +241,26 @@ func coreFromScripts(m map[string]string) error {
 	fmt.Println(string(out))
 	return nil
 }
+
+// loadFixedTexts reads the side file of `core fromscripts` (case id -> original texts); "" -> nil.
+func loadFixedTexts(path string) (map[int][]string, error) {
+	if path == "" {
+		return nil, nil
+	}
+	lines, err := readNDJSON(path)
+	if err != nil {
+		return nil, err
+	}
+	fixed := map[int][]string{}
+	for _, raw := range lines {
+		var t struct {
+			ID    int      `json:"id"`
+			Texts []string `json:"texts"`
+		}
+		if err := json.Unmarshal(raw, &t); err != nil {
+			return nil, err
+		}
+		fixed[t.ID] = t.Texts
+	}
+	return fixed, nil
+}
